@@ -165,7 +165,7 @@ def obs(C, c):
         return ('reg', c.cassname)
     if issubclass(c, C.VectorType) and 'vector_size' in d:
         vs = c.vector_size
-        return ('vec', c.cassname if isinstance(vs, int) else '?', obs(C, c.subtype), obs(C, vs))
+        return ('vec', c.cassname, obs(C, c.subtype), obs(C, vs))
     if issubclass(c, C.UserType) and 'keyspace' in d:
         return ('udt', c.keyspace, c.typename, list(c.fieldnames), [obs(C, s) for s in c.subtypes])
     if 'subtypes' in d:
@@ -190,12 +190,12 @@ def call(f, *a):
 
 
 def printed(f, *a, **kw):
-    """result of a printer method; strings that embed a class repr are not modelled"""
+    """result of a printer method (None = raised)"""
     try:
         s = f(*a, **kw)
     except Exception:
         return None
-    if not isinstance(s, str) or "<class '" in s:
+    if not isinstance(s, str):
         return None
     return s
 
@@ -342,11 +342,37 @@ def _canon_result(r):
     return (r[0], r[1] if isinstance(r[1], bytes) else repr(r[1]))
 
 
-def codec_behaviour(C, c, t, versions=(1, 2, 3, 4, 5)):
+def max_dim(t):
+    if t[0] == 'vector':
+        return max(int(t[2]), max_dim(t[1]))
+    if t[0] in ('list', 'set', 'frozen', 'reversed'):
+        return max_dim(t[1])
+    if t[0] == 'map':
+        return max(max_dim(t[1]), max_dim(t[2]))
+    if t[0] in ('tuple', 'udt'):
+        return max([max_dim(x) for x in (t[1] if t[0] == 'tuple' else t[4])] or [0])
+    return 0
+
+
+def has_dim0(t):
+    if t[0] == 'vector':
+        return t[2] == '0' or has_dim0(t[1])
+    if t[0] in ('list', 'set', 'frozen', 'reversed'):
+        return has_dim0(t[1])
+    if t[0] == 'map':
+        return has_dim0(t[1]) or has_dim0(t[2])
+    if t[0] in ('tuple', 'udt'):
+        return any(has_dim0(x) for x in (t[1] if t[0] == 'tuple' else t[4]))
+    return False
+
+
+def codec_behaviour(C, c, t, versions=(2, 4)):
     """the parsed class c must serialise and deserialise exactly like the directly built codec class of the type, at every
     native protocol version.  Returns list of (op, version, parsed-result, reference-result)."""
-    ref = ref_class(C, t)
     out = []
+    if max_dim(t) > 16 or "'vector', " in repr(t) and has_dim0(t):
+        return out          # large vectors add nothing; dimension 0 is not a Cassandra type (empty encodings decode to None through wrappers)
+    ref = ref_class(C, t)
     try:
         v = sample_value(t)
     except Exception:
